@@ -77,4 +77,9 @@ CHECKS = {
   "text": "About 350 structures x 3-6 variants per quick run (6400 thorough). Exploration level; the option product and chain permutations are sampled by the strategy.",
   "note": "Trusted: the structure grammar; parameters are transferred by name. Known finding (pinned, excluded from search and counted): align_ref=center_mass with center_mass=False and a moving parent.",
  },
+ "C03": {
+  "technique": "property-based testing with an algebraic reference: per-chain amplitude tensors are extracted once, then every generated subset / resonance selection / coupling rescaling is compared with the corresponding numpy partial sum; fit fractions from both library paths are compared with a numpy evaluation from the same tensors, with the sum rule and batch-size independence",
+  "text": "About 320 generated structures per quick run (8700 thorough) incl. zero couplings, opposite-phase pairs, prefix-related resonance names, weighted samples and non-dividing batches. Exploration level.",
+  "note": "Trusted: numpy sums of the library's own single-chain tensors (linearity is the property; the single-chain values themselves are C01/C04/C15). Fit-fraction clause asserted for resonance lists that partition the chains; method='new' is called with an explicit resonance list as the configuration loader does.",
+ },
 }
